@@ -435,7 +435,9 @@ def calculate_1d_frequencies(
             raise ValueError(
                 f"Weights must have the same shape as data, {weights_array.shape} != {data_array.shape}"
             )
-        equal_weights = weights_array.max() - weights_array.min() == 0
+        equal_weights = (
+            weights_array.size == 0 or weights_array.max() - weights_array.min() == 0
+        )
     else:
         weights_array = np.ones_like(data_array, dtype=int)
         equal_weights = True
